@@ -221,6 +221,10 @@ func (check typecheck) shift(n *node) error {
 	default:
 		return n.cfgErrorf("invalid operation: shift count type %v, must be integer", c1.typ.id())
 	}
+	if c0.rval.IsValid() && c1.rval.IsValid() && vUint(c1.rval) > 1074 {
+		// Same limit as the Go toolchain, which is enough to shift the smallest float64 to an integer.
+		return n.cfgErrorf("invalid shift count")
+	}
 	return nil
 }
 
@@ -328,6 +332,14 @@ func (check typecheck) constExpr(n *node) error {
 	}
 	if !representableConst(x, t) {
 		return n.cfgErrorf("constant %s overflows %s", x.String(), c0.typ.id())
+	}
+	return nil
+}
+
+// constOverflow checks the size of an untyped integer constant result, limited as by the Go toolchain.
+func (check typecheck) constOverflow(n *node) error {
+	if c := constValue(n.rval); c != nil && c.Kind() == constant.Int && constant.BitLen(c) > 512 {
+		return n.cfgErrorf("constant %s overflow", n.action)
 	}
 	return nil
 }
